@@ -317,7 +317,7 @@ def handle : Toks → Option String
     if m = 0 then
       let r := runRecs c { prev := st0, last := .maxIters } recs
       let whole := match recs with
-        | [Rec.Z x v] => [showRun (solveNoineq P' mufx par x v) ++ " -1"]
+        | [Rec.Z x v] => [showRun (solveNoineq P' mufx par (p == 0) x v) ++ " -1"]
         | _ => []
       pure (String.intercalate " " (head :: r.out.reverse ++ whole ++ [s!"E {r.last.code}"]))
     else
